@@ -125,6 +125,7 @@ def main_check(pid: str, tier: str) -> int:
         if r["res"].get("violation"):
             report(r["res"].get("key") or prop.finding_key(r["case"], r["res"]), r["res"]["violation"],
                    {"kind": "property-oracle", "case": r["case"], "impl": r["res"], "hashseed": r["hashseed"]})
+    search_cache = {}
     for i in bad_idx:
         r = good[i]
         verdict = prop.classify_mismatch(r["case"], r["res"])  # (is_concrete_failure, description, key)
@@ -132,8 +133,12 @@ def main_check(pid: str, tier: str) -> int:
                    "coq_term": r["term"], "obligation": f"correspondence Corr/{pid}.v:{prop.check_fn}"}
         if verdict[0]:
             report(verdict[2], verdict[1], payload)
+        elif r["res"].get("violation"):
+            continue  # already reported above with this very input as the concrete failing input
         else:
-            found = prop.search(random.Random(f"{seed}/search/{i}"), r["case"])
+            if verdict[2] not in search_cache:
+                search_cache[verdict[2]] = prop.search(random.Random(f"{seed}/search/{i}"), r["case"])
+            found = search_cache[verdict[2]]
             if found is not None:
                 payload.update({"failing_input": found})
                 report(found.get("key", verdict[2]), found.get("what", verdict[1]), payload)
